@@ -408,6 +408,119 @@ def children(case):
     return out
 
 
+# ------------------------------------------------------------------ program-exit histories
+ROUTES = {'r': 'return from main', 'e': 'exit(0) from a nested call', 'w': 'exit(0) inside a with-block inside a try-block',
+          't': 'uncaught throw (Exception_Error exits)', 's': 'exit(3) from a deep call, no other thread',
+          'j': 'exit(0) after a worker Thread has come and gone'}
+
+
+def gen_exit_objs(rng):
+    n = rng.randrange(1, 9)
+    toks, used_f = [], False
+    for i in range(1, n + 1):
+        k = rng.choice('ppoocrgf')
+        if k == 'f':
+            if used_f:
+                k = 'p'
+            else:
+                used_f = True
+                toks.append('f'); continue
+        toks.append('%s%d' % (k, i))
+    return ' '.join(toks)
+
+
+def exit_model_case(route, objs):
+    """the same history for the model / specification drivers (owners get identities of their own;
+    everything the program holds is reachable, so threshold collections mark everything)"""
+    toks, regd = [], []
+
+    def new(tok, ident):
+        toks.append(tok + str(ident) + ((':' + ','.join(map(str, regd))) if regd else ''))
+        regd.append(ident)
+    have_arr = False
+    for t in objs.split():
+        k, ident = t[0], int(t[1:] or 0)
+        if k == 'p':
+            new('n', ident)
+        elif k == 'r':
+            new('N', ident)
+        elif k == 'f':
+            new('n', 900)
+        elif k in 'ogc':
+            owner = ident + {'o': 600, 'g': 500, 'c': 700}[k]
+            if k == 'c' and not have_arr:
+                have_arr = True
+                new('n', 950)
+            new('n', ident); new('b', owner); toks.append('l%d,%d' % (owner, ident))
+    return 'MO|' + ' '.join(toks + ['T' + route])
+
+
+def check_exit_case(ctx, exe, drv, route, objs):
+    """-> (why or None, record)"""
+    rc, out, err = vlib.sh([exe, route, objs], timeout=30)
+    line = out.strip().split('\n')[-1] if out.strip() else ''
+    rec = {'harness': 'lifecycle_exit', 'case': '%s|%s' % (route, objs), 'route': ROUTES.get(route, route),
+           'impl': line, 'exit_status': rc}
+    f = line.split(';')
+    if len(f) != 5:
+        return 'the program printed no ledger at exit (status %s): %r' % (rc, (out + err)[-200:]), rec
+    led = {int(a): int(b) for a, b in (x.split(':') for x in f[0].split(',') if x)}
+    mc = exit_model_case(route, objs)
+    model = ctx.run_lines(drv, [mc], args=['model'])[1][0]
+    spec = ctx.run_lines(drv, [mc], args=['spec'])[1][0]
+    rec.update(model_case=mc, model=model.split(' | ')[-1], spec=spec.split(' | ')[-1])
+    if f[4] != '1':
+        return 'the history did not reach its termination route', rec
+    if f[3] != 'B0':
+        return 'a destructor ran on a block that is not a live probe (%s)' % f[3], rec
+    must = {int(x) for x in spec.split(' | ')[-1].split(';')[0].split(',') if x}
+    for o, n in sorted(led.items()):
+        if n > 1:
+            return 'object %d finalised %d times at program exit (%s)' % (o, n, ROUTES[route]), rec
+        if o in must and n != 1:
+            return ('object %d is a managed object that is alive when the program ends through "%s": it must be finalised by the '
+                    'teardown of the collector, but its destructor ran %d times' % (o, ROUTES[route], n)), rec
+    if 'f' in objs.split() and f[1] != 'F1':
+        return 'the managed File was closed %s times at program exit (%s)' % (f[1][1:], ROUTES[route]), rec
+    a, b = f[2][1:].split('/')
+    if a != b:
+        return 'worker thread: %s of %s managed objects finalised at thread exit' % (a, b), rec
+    # correspondence with the machine (terminate with the switches read off the wrapper)
+    ml = ledger(model.split(' | ')[-1])
+    if ml is not None:
+        for o, n in sorted(led.items()):
+            if o in ml and ml[o][0] != n:
+                rec['correspondence'] = 'object %d: program %d, machine %d' % (o, n, ml[o][0])
+                return None, rec
+    return None, rec
+
+
+def run_exit_routes(ctx, drv, volume, only=None):
+    exe = ctx.build_harness('lifecycle_exit.c', name='lifecycle_exit', extra=['-Wl,--wrap=fclose'])
+    cases = [(r, 'p1') for r in ROUTES] + [(r, 'p1 o2 c3 c4 r5 f g6 p7') for r in ROUTES]
+    cases += [(ctx.rng.choice(list(ROUTES)), gen_exit_objs(ctx.rng)) for _ in range(volume)]
+    if only:
+        cases = [only]
+    nviol, ncorr, hist = 0, 0, {}
+    for route, objs in cases:
+        why, rec = check_exit_case(ctx, exe, drv, route, objs)
+        ctx.count_case('exit\0' + rec['case'] + rec['impl'], True)
+        hist[route] = hist.get(route, 0) + 1
+        if why and nviol < 3:
+            ctx.violation('exit_route_%d' % nviol, dict(rec, kind='implementation contradicts the specification (property fails on a concrete input)',
+                                                         why=why))
+            nviol += 1
+        elif rec.get('correspondence') and not ncorr:
+            ncorr += 1
+            ctx.violation('exit_route_correspondence', dict(rec, kind='correspondence between model and implementation no longer checks',
+                                                             theorem_or_file='correspondence lifecycle_exit (terminate vs the real main wrapper)',
+                                                             why=rec['correspondence']), no_failing_input=True)
+        if len(ctx.cov['samples']) < 6 and route in 'et':
+            ctx.sample(rec)
+    ctx.cov['exit_routes'] = {'cases': len(cases), 'by_route': hist,
+                              'what': 'one process per history, built with the main wrapper macro of the working tree; ledger read at exit'}
+
+
 def corr(case, impl, model):
     if ';BAD' in model:
         return None
@@ -557,6 +670,13 @@ def run(ctx):
 
     d = Diff(ctx, 'lifecycle', run_impl, run_model, run_spec, oracle, corr, nontrivial, split, join, classify)
     rp = os.environ.get('VERIF_REPLAY')
+    if rp and json.load(open(rp)).get('harness') == 'lifecycle_exit':
+        r = json.load(open(rp))
+        route, objs = r['case'].split('|', 1)
+        run_exit_routes(ctx, drv, 0, only=(route, objs))
+        for path, _ in ctx.violations:
+            v = json.load(open(path)); print('REPLAY: %s\n  program %s\n  machine %s\n  spec    %s' % (v.get('why'), v.get('impl'), v.get('model'), v.get('spec')))
+        return
     if rp:
         r = json.load(open(rp))
         d.feed([r['case']] if 'case' in r else CORPUS)
@@ -565,6 +685,10 @@ def run(ctx):
         d.report()
         return
     d.feed(CORPUS, 'corpus')
+    # program-exit histories (every run; ten times the volume when a proof obligation is broken,
+    # e.g. when the main wrapper no longer registers the teardown for every route)
+    broken = bool(getattr(ctx, 'proof_broken', None))
+    run_exit_routes(ctx, drv, (12 if quick else 200) * (10 if broken else 1))
 
     # open finding F2: the recorded witness must still fail, and is reported as known
     for f in mine:
